@@ -25,6 +25,12 @@ Descriptions (JSON; tuples of harness/trees.py arrive as lists):
          | ["G", name, ws, [[key, ["S"|"H", v]]...], [node...]]     Tag, attributes stored as is
          | ["K", name, [dict...], [[key, value]...], [node...]]     Tag(name, *dicts, *kids, **kw)
          | ["C", self_html|null, [node...], as_list]                 object with tagify()
+         | ["L", [node...]] | ["L", [node...], "t"]  a Python list / tuple of children (they nest; the
+                                                     constructors flatten them)
+  Any string anywhere in an item may be written {"$rep": [unit, n, pos, ins]}: the first n characters
+  of unit repeated, with `ins` inserted at position pos (long strings stay readable in replay files);
+  and {"$cat": [part...]}: the parts (strings in either notation) joined;
+  `expand` (applied by `observe`) replaces these by the strings they stand for.
   item ::= {"id", "kind": "tree", "descs": [node...], "doc_kw": [[k, v]...],
             "doc_opts": [[lib_prefix|null, include_version]...]}   (optional: further
                         HTMLDocument.render(lib_prefix=, include_version=) settings)
@@ -35,6 +41,16 @@ Descriptions (JSON; tuples of harness/trees.py arrive as lists):
          | {"id", "kind": "prog", "steps": [step...], "doc_kw": [[k, val]...]}
                         a small program over the PUBLIC construction / mutation API (class Prog
                         below); the object observed is TagList(*registers)
+  tree / prog / expr items may carry "opts": {...}: the object is then ALSO taken through every other
+  public entry point, with these non-default arguments (see observe_routes):
+      indent, eol, add_ws      get_html_string(indent, eol, add_ws=) of TagList / Tag, before and after tagify()
+      wrap                     name of a Tag the children are also placed in (one object in two parents)
+      lib_prefix, include_version, libdir, save ("list" | "tag" | "doc" | null)
+                               HTMLDocument(...).render(lib_prefix=, include_version=), its copy.copy, .append();
+                               TagList / Tag / HTMLDocument .save_html(file, libdir=, include_version=)
+      pattern                  deps_replace_pattern of the HTMLTextDocument the json-mode text goes through
+      build_json               the object is BUILT while html_dependency_render_mode == "json"
+      groups                   which groups of routes are taken (ROUTE_GROUPS; absent: all of them)
 
 Typed values of programs (a JSON scalar stands for itself: str, int, float, bool, null):
   val ::= scalar | {"h": s} HTML(s) | {"u": s} str-subclass instance | {"hs": s} HTML-subclass instance
@@ -42,6 +58,7 @@ Typed values of programs (a JSON scalar stands for itself: str, int, float, bool
         | {"css": [[k, val]...], "collapse": s} the result of css(**kw)
         | {"l": [val...]} list | {"d": [[k, val]...]} dict
         | {"r": i} the object in register i | {"n": node} a node description (see above)
+        | {"ra": i} the .attrs object of the tag in register i (given as an attribute dict)
   arg ::= {"a": [[key, val]...]} an attribute dict | val (a child)
   step ::= ["tag", name, ws|null, [arg...], [[k, val]...]]      Tag(name, *args, **kw)        -> new register
          | ["fn", "tags"|"svg", name, [arg...], [[k, val]...]]  htmltools.tags.<name>(...)    -> new register
@@ -65,6 +82,7 @@ import json
 import os
 import random
 import sys
+import tempfile
 
 _HERE = os.path.dirname(os.path.abspath(__file__))
 _VERIF = os.path.dirname(_HERE)
@@ -84,14 +102,36 @@ from htmltools import _core, _util  # noqa: E402
 HC_PREFIX = "headcontent_"
 
 
+def rep_string(unit: str, n: int, pos: int, ins: str) -> str:
+    base = (unit * (n // max(1, len(unit)) + 1))[:n]
+    return base[:pos] + ins + base[pos:]
+
+
+def expand(x):
+    """replace every {"$rep": [unit, n, pos, ins]} by the string it stands for"""
+    if isinstance(x, dict):
+        if "$rep" in x:
+            return rep_string(*x["$rep"])
+        if "$cat" in x:
+            return "".join(expand(y) for y in x["$cat"])
+        return {k: expand(v) for k, v in x.items()}
+    if isinstance(x, (list, tuple)):
+        return [expand(v) for v in x]
+    return x
+
+
 def digest(s: str) -> str:
     return hashlib.sha256(s.encode("utf-8", "surrogatepass")).hexdigest()
 
 
 def safe(f):
-    """('ok', value) | ('err', exception class name)"""
+    """('ok', value) | ('err', exception class name); an implementation call that does not return
+    within common.IMPL_LIMIT seconds is the value ('err', 'did-not-terminate')"""
     try:
-        return ["ok", f()]
+        with common.time_limit():
+            return ["ok", f()]
+    except common.ImplTimeout:
+        return ["err", "did-not-terminate"]
     except RecursionError:
         return ["err", "RecursionError"]
     except Exception as e:  # noqa: BLE001
@@ -106,9 +146,12 @@ class Builder:
     construction order (it survives the copy() that tagify() applies to metadata nodes);
     every head_content call is logged as (name, rendered content of its arguments)."""
 
-    def __init__(self) -> None:
+    def __init__(self, reuse: bool = False) -> None:
+        self.reuse = reuse            # also make every dependency a second time from the same argument objects
         self.next_id = 0
         self.hc_log: list[list[str]] = []
+        # constructions that, repeated with the very same argument objects, gave another result
+        self.reuse_bad: list[str] = []
 
     def tag_id(self, d):
         d._verif_id = self.next_id
@@ -116,7 +159,16 @@ class Builder:
         return d
 
     def dep(self, payload: dict):
-        return self.tag_id(HTMLDependency(**copy.deepcopy(payload)))
+        p = copy.deepcopy(payload)
+        d = HTMLDependency(**p)
+        # the caller's argument objects used a second time (a constructor may normalise them in place;
+        # what it may not do is make the second construction differ from the first)
+        if self.reuse:
+            t1 = safe(lambda: dep_text(d))
+            t2 = safe(lambda: dep_text(HTMLDependency(**p)))
+            if t1 != t2:
+                self.reuse_bad.append("HTMLDependency %s %s" % (payload.get("name"), payload.get("version")))
+        return self.tag_id(d)
 
     def node(self, d):
         k = d[0]
@@ -139,6 +191,8 @@ class Builder:
                 # the rendered content, taken from a second, independent rendering
                 content = TagList(*kids).get_html_string()
                 self.hc_log.append([h.name, content])
+                # the same argument objects once more: the name is a function of the content
+                self.hc_log.append([head_content(*kids).name, content])
                 return h
             return self.dep(p)
         if k == "G":
@@ -157,6 +211,9 @@ class Builder:
             if sh is None:
                 return trees.CustomObj(exp_b, as_list)
             return trees.CustomReprObj(exp_b, as_list, sh)
+        if k == "L":
+            xs = [self.node(x) for x in d[1]]
+            return tuple(xs) if len(d) > 2 and d[2] == "t" else xs
         raise ValueError(d)
 
 
@@ -211,6 +268,8 @@ class Prog:
             return {k: self.val(y) for k, y in v["d"]}
         if "r" in v:
             return self.regs[v["r"]]
+        if "ra" in v:
+            return self.regs[v["ra"]].attrs
         if "n" in v:
             return self.b.node(v["n"])
         raise ValueError(v)
@@ -303,6 +362,12 @@ class Prog:
                     self.regs.append(None)
 
 
+def dep_text(d) -> str:
+    """everything a dependency contributes to a page, as text"""
+    return d.serialize_to_script_json().get_html_string() + "|" + \
+        d.as_html_tags(lib_prefix="L", include_version=True).get_html_string()
+
+
 def _dep_full(name, version, **kw):
     return HTMLDependency(name, version, **kw)
 
@@ -358,18 +423,215 @@ def dep_row(d) -> list:
     return [d.name, str(d.version), getattr(d, "_verif_id", -1)]
 
 
-def observe_object(mk, doc_kw, raw: bool, doc_opts=()) -> dict:
+def _with_mode(mode: str, f):
+    old = htmltools.html_dependency_render_mode
+    htmltools.html_dependency_render_mode = mode
+    try:
+        return f()
+    finally:
+        htmltools.html_dependency_render_mode = old
+
+
+def _dg(r):
+    return ["ok", digest(r[1])] if r[0] == "ok" else r
+
+
+ROUTE_GROUPS = ["markup", "wrap", "copies", "grow", "docs", "save", "json", "with"]
+
+
+def observe_routes(x, doc_kw, o: dict, raw: bool) -> tuple[dict, dict]:
+    """x through every other public entry point, with the non-default arguments of o (see the module
+    docstring).  Returns (observation: digests / names / booleans, texts of the document-like results)."""
+    R: dict = {}
+    RAW: dict = {}
+    groups = o.get("groups") or ROUTE_GROUPS
+    ind, eol, aw = o.get("indent", 0), o.get("eol", "\n"), o.get("add_ws", True)
+    lp, iv = o.get("lib_prefix", "lib"), o.get("include_version", True)
+    kw = {k: v for k, v in doc_kw}
+
+    def ghs(y):
+        if isinstance(y, TagList):
+            return y.get_html_string(ind, eol, add_ws=aw)
+        return y.get_html_string(ind, eol)
+
+    def rows(deps):
+        return [dep_row(d) for d in deps]
+
+    def rendered(name, f):
+        r = safe(f)
+        if r[0] == "ok":
+            R[name] = ["ok", digest(r[1]["html"]), rows(r[1]["dependencies"])]
+            if raw:
+                RAW[name] = r[1]["html"]
+        else:
+            R[name] = r
+
+    if "markup" in groups:
+        R["ghs"] = _dg(safe(lambda: ghs(x)))
+        R["repr"] = _dg(safe(lambda: repr(x)))
+        R["repr_html"] = _dg(safe(lambda: x._repr_html_()))
+    t = safe(lambda: x.tagify()) if "markup" in groups else ["skipped"]
+    if t[0] == "skipped":
+        pass
+    elif t[0] == "ok":
+        tx = t[1]
+        R["tagify_ghs"] = _dg(safe(lambda: ghs(tx)))
+        R["deps_all"] = safe(lambda: rows(tx.get_dependencies(dedup=False)))
+        R["deps_dedup"] = safe(lambda: rows(tx.get_dependencies(dedup=True)))
+        R["tagify_twice"] = _dg(safe(lambda: ghs(tx.tagify())))
+    else:
+        R["tagify"] = t
+    # the same children in a second parent
+    w = safe(lambda: Tag(o.get("wrap", "div"), x, {"id": "w"}))
+    wt = w[1] if w[0] == "ok" else None
+    if "wrap" not in groups:
+        pass
+    elif wt is not None:
+        rendered("tag_render", lambda: wt.render())
+        R["tag_ghs"] = _dg(safe(lambda: wt.tagify().get_html_string(ind, eol)))
+        R["tag_deps_all"] = safe(lambda: rows(wt.tagify().get_dependencies(dedup=False)))
+        R["tag_deps"] = safe(lambda: rows(wt.tagify().get_dependencies()))
+        R["tag_str"] = _dg(safe(lambda: str(wt)))
+        R["tag_repr_html"] = _dg(safe(lambda: wt._repr_html_()))
+        rendered("tag_doc", lambda: HTMLDocument(wt, **kw).render(lib_prefix=lp, include_version=iv))
+    else:
+        R["wrap"] = w
+    # copies, comparisons
+    for nm, cp in (("copy", copy.copy), ("deepcopy", copy.deepcopy)) if "copies" in groups else ():
+        c = safe(lambda: cp(x))
+        if c[0] == "ok":
+            R[nm] = [_dg(safe(lambda: str(c[1]))), safe(lambda: bool(x == c[1])), safe(lambda: bool(c[1] == x)),
+                     _dg(safe(lambda: c[1].render()["html"]))]
+        else:
+            R[nm] = c
+    # + / += / insert / append / extend on a copy
+    if isinstance(x, TagList) and "grow" in groups:
+        extra = ["t<", HTML("<i>"), 1.5, None, ["in a list"]]
+        R["add"] = _dg(safe(lambda: str(x + extra)))
+        R["radd"] = _dg(safe(lambda: str(extra + x)))
+
+        def grown():
+            c = copy.copy(x)
+            c += extra
+            c.insert(0, "first")
+            c.append("z", HTML("<z>"))
+            c.extend(extra)
+            return str(c)
+        R["grown"] = _dg(safe(grown))
+    # documents
+    def appended():
+        d = HTMLDocument(**kw)
+        d.append(x)
+        return d.render(lib_prefix=lp, include_version=iv)
+    if "docs" in groups:
+        rendered("doc_opts", lambda: HTMLDocument(x, **kw).render(lib_prefix=lp, include_version=iv))
+        rendered("doc_opts_again", lambda: HTMLDocument(x, **kw).render(lib_prefix=lp, include_version=iv))
+        rendered("doc_copy", lambda: copy.copy(HTMLDocument(x, **kw)).render(lib_prefix=lp, include_version=iv))
+        rendered("doc_append", appended)
+    # save_html
+    sv = o.get("save") if "save" in groups else None
+    if sv:
+        libdir = o.get("libdir", "lib")
+        with tempfile.TemporaryDirectory(prefix="c18-") as td:
+            out_dir = os.path.join(td, "out")
+            os.makedirs(out_dir)
+            f = os.path.join(out_dir, "page.html")
+            if sv == "tag" and wt is not None:
+                call = lambda: wt.save_html(f, libdir=libdir, include_version=iv)      # noqa: E731
+            elif sv == "doc":
+                call = lambda: HTMLDocument(x, **kw).save_html(f, libdir, iv)          # noqa: E731
+            else:
+                call = lambda: x.save_html(f, libdir=libdir, include_version=iv)       # noqa: E731
+            r = safe(call)
+            if r[0] == "ok":
+                with open(f, "rb") as fh:
+                    data = fh.read()
+                files = []
+                for root, _dirs, names in os.walk(out_dir):
+                    for n in names:
+                        full = os.path.join(root, n)
+                        files.append([os.path.relpath(full, out_dir), os.path.getsize(full)]
+                                     if n != "page.html" else [n, -1])
+                R["save"] = ["ok", hashlib.sha256(data).hexdigest(), sorted(files)]
+                if raw:
+                    RAW["save"] = data.decode("utf-8", "replace")
+            else:
+                R["save"] = r
+    # json render mode: every str-like route, and the text document the output is meant for
+    js = ["skipped"]
+    if "json" in groups:
+        R["json_repr"] = _dg(safe(lambda: _with_mode("json", lambda: repr(x))))
+        R["json_repr_html"] = _dg(safe(lambda: _with_mode("json", lambda: x._repr_html_())))
+        if wt is not None:
+            R["json_tag_str"] = _dg(safe(lambda: _with_mode("json", lambda: str(wt))))
+        js = safe(lambda: _with_mode("json", lambda: str(x)))
+    if js[0] == "ok":
+        pat = o.get("pattern", "@@DEPS@@")
+        text = "<html><head>" + pat + "</head><body>" + js[1] + pat + "\n" + js[1] + "</body></html>"
+
+        def textdoc():
+            given = [HTMLDependency("given-dep", "1.0", script={"src": "g.js"})]
+            td_ = HTMLTextDocument(text, deps=given, deps_replace_pattern=pat)
+            return td_.render(lib_prefix=lp, include_version=iv)
+        rendered("textdoc", textdoc)
+        if len(text) < 200000:
+            # (the library scans the text with a lazy regular expression: a long text is given once)
+            rendered("textdoc_again", textdoc)
+            rendered("textdoc_json", lambda: _with_mode("json", textdoc))
+    # the with-block route (sys.displayhook), then the tag copied / compared / rendered
+    def withblock():
+        t_ = Tag(o.get("wrap", "div"), {"class": "ctx"})
+        old = sys.displayhook
+        sink: list = []
+        sys.displayhook = sink.append
+        try:
+            with t_:
+                sys.displayhook(x)
+                sys.displayhook("text<")
+                sys.displayhook(None)
+                sys.displayhook(trees.ReprObj("<r/>"))
+        finally:
+            sys.displayhook = old
+        c = copy.copy(t_)
+        rr = t_.render()
+        return [digest(str(t_)), rows(rr["dependencies"]), digest(str(c)), bool(t_ == c), bool(c == t_),
+                len(sink), digest(HTMLDocument(t_, **kw).render(lib_prefix=lp, include_version=iv)["html"])]
+    if "with" in groups:
+        R["with"] = safe(withblock)
+    # results handed out are the caller's: changing them changes nothing
+    def mutate_results():
+        r1 = x.render()
+        r1["dependencies"].reverse()
+        r1["dependencies"].append(None)
+        d1 = HTMLDocument(x, **kw).render()
+        d1["dependencies"].clear()
+        g = x.tagify().get_dependencies()
+        g.clear()
+        x.tagify().get_dependencies(dedup=False).clear()
+    safe(mutate_results)
+    R["deps_after"] = safe(lambda: rows(x.render()["dependencies"]))
+    # after all of the above the object itself renders as before
+    R["html_after"] = _dg(safe(lambda: x.render()["html"]))
+    return R, RAW
+
+
+def observe_object(mk, doc_kw, raw: bool, doc_opts=(), opts: dict | None = None) -> dict:
     """mk() builds the object (fresh each call).  Everything the property talks about:
     markup digest, dependency order, head_content names, document digest, json-mode digest,
     extraction order."""
     out: dict = {}
-    b = safe(mk)
+    if opts and opts.get("build_json"):
+        b = safe(lambda: _with_mode("json", mk))
+    else:
+        b = safe(mk)
     if b[0] == "err":
         return {"build": b}
     x, hc_log = b[1][0], b[1][1]
     out["build"] = ["ok", None]
-    if len(b[1]) > 2:
+    if len(b[1]) > 2 and b[1][2] is not None:
         out["trace"] = b[1][2]
+    if len(b[1]) > 3 and b[1][3]:
+        out["reuse_bad"] = b[1][3]
     out["hc"] = [[n, digest(c)] for n, c in hc_log]
     if raw:
         out["_hc_raw"] = hc_log
@@ -427,6 +689,8 @@ def observe_object(mk, doc_kw, raw: bool, doc_opts=()) -> dict:
         out["json"] = ["ok", digest(js[1])]
 
         def extract():
+            if len(js[1]) > 100000 and opts and "json" in (opts.get("groups") or ROUTE_GROUPS):
+                return "see routes.textdoc"     # (a long text is scanned once: there)
             text = "<html><head>@@DEPS@@</head><body>" + js[1] + "\n" + js[1] + "</body></html>"
             td = HTMLTextDocument(text, deps_replace_pattern="@@DEPS@@")
             rr = td.render()
@@ -435,7 +699,16 @@ def observe_object(mk, doc_kw, raw: bool, doc_opts=()) -> dict:
     else:
         out["json"] = js
 
-    # the same object again, after everything above: rendering is not affected by history
+    if opts:
+        R, RAW = observe_routes(x, doc_kw, opts, raw)
+        out["routes"] = R
+        if raw:
+            out["_routes_raw"] = RAW
+
+    # the same object again, after everything above: rendering is not affected by history; nor is anything else
+    # the object carries (json mode writes every dependency out in full)
+    if js[0] == "ok":
+        out["json_again"] = _dg(safe(json_mode))
     r2 = safe(render)
     out["html_again"] = ["ok", digest(r2[1]["html"])] if r2[0] == "ok" else r2
     s = safe(lambda: str(x))
@@ -444,28 +717,29 @@ def observe_object(mk, doc_kw, raw: bool, doc_opts=()) -> dict:
 
 
 def observe(item: dict, raw: bool = False) -> dict:
+    item = expand(item)
     k = item["kind"]
     if k == "tree":
         def mk():
-            bld = Builder()
+            bld = Builder(reuse="opts" in item)
             kids = [bld.node(d) for d in item["descs"]]
-            return TagList(*kids), bld.hc_log
-        return observe_object(mk, item.get("doc_kw", []), raw, item.get("doc_opts", []))
+            return TagList(*kids), bld.hc_log, None, bld.reuse_bad
+        return observe_object(mk, item.get("doc_kw", []), raw, item.get("doc_opts", []), item.get("opts"))
     if k == "prog":
         def mk3():
-            bld = Builder()
+            bld = Builder(reuse="opts" in item)
             pr = Prog(bld)
             pr.run(item["steps"])
-            return TagList(*[r for r in pr.regs if r is not None]), bld.hc_log, pr.trace
+            return TagList(*[r for r in pr.regs if r is not None]), bld.hc_log, pr.trace, bld.reuse_bad
         return observe_object(mk3, [[kk, Prog(Builder()).val(vv)] for kk, vv in item.get("doc_kw", [])], raw,
-                              item.get("doc_opts", []))
+                              item.get("doc_opts", []), item.get("opts"))
     if k == "expr":
         def mk2():
             return EXPRS[item["name"]](), []
-        return observe_object(mk2, [], raw)
+        return observe_object(mk2, [], raw, (), item.get("opts"))
     if k == "text":
         def text():
-            bld = Builder()
+            bld = Builder(reuse="opts" in item)
             deps = [bld.dep(p) for p in item["deps"]]
             if item["pattern"] is None:
                 td = HTMLTextDocument(item["text"])
@@ -473,9 +747,29 @@ def observe(item: dict, raw: bool = False) -> dict:
                 td = HTMLTextDocument(item["text"], deps=deps, deps_replace_pattern=item["pattern"])
             rr = td.render()
             rest, found = HTMLTextDocument._static_extract_serialized_html_deps(item["text"])
-            return {"deps": [[d.name, str(d.version)] for d in rr["dependencies"]],
-                    "html": digest(rr["html"]),
-                    "static": [[d.name, str(d.version)] for d in found], "rest": digest(rest)}
+            res = {"deps": [[d.name, str(d.version)] for d in rr["dependencies"]],
+                   "html": digest(rr["html"]),
+                   "static": [[d.name, str(d.version)] for d in found], "rest": digest(rest)}
+            o = item.get("opts")
+            if o:
+                lp, iv = o.get("lib_prefix", "lib"), o.get("include_version", True)
+                r2 = td.render(lib_prefix=lp, include_version=iv)
+                res["opts"] = [digest(r2["html"]), [[d.name, str(d.version)] for d in r2["dependencies"]]]
+                # the same document again, and a second document built from equal arguments (its own list)
+                res["html_again"] = digest(td.render()["html"])
+                # (its OWN list: HTMLTextDocument keeps the caller's `deps` list and appends the extracted
+                # dependencies to it, so two documents given the same list object see each other's -- reported
+                # as a finding about /repo, and that input class is left out here)
+                if item["pattern"] is not None:
+                    deps2 = [Builder().dep(p) for p in item["deps"]]
+                    r3 = HTMLTextDocument(item["text"], deps=deps2, deps_replace_pattern=item["pattern"]).render()
+                    res["second"] = [digest(r3["html"]), [[d.name, str(d.version)] for d in r3["dependencies"]]]
+                res["json"] = digest(_with_mode("json", lambda: HTMLTextDocument(
+                    item["text"], deps=[Builder().dep(p) for p in item["deps"]],
+                    deps_replace_pattern=item["pattern"] or "@@none@@").render(lib_prefix=lp, include_version=iv)["html"]))
+            if bld.reuse_bad:
+                res["reuse_bad"] = bld.reuse_bad
+            return res
         return {"text": safe(text)}
     if k == "resolve":
         def resolve():
